@@ -35,21 +35,28 @@ class UseGenerator(SimpleCodemod, NameResolutionMixin):
             case cst.Name("any" | "all" | "sum" | "min" | "max"):
                 if self.is_builtin_function(original_node):
                     match original_node.args[0].value:
-                        case cst.ListComp(elt=elt, for_in=for_in):
+                        case cst.ListComp():
                             self.add_change(original_node, self.change_description)
+                            first_arg, *other_args = updated_node.args
+                            # The generator needs parentheses of its own unless it is the only argument
+                            # (`sum(x for x in y, 1)` does not parse); a trailing comma counts as well
+                            sole_argument = not other_args and isinstance(
+                                first_arg.comma, cst.MaybeSentinel
+                            )
+                            listcomp = first_arg.value
                             return updated_node.with_changes(
                                 args=[
-                                    cst.Arg(
+                                    first_arg.with_changes(
                                         value=cst.GeneratorExp(
-                                            elt=elt,  # type: ignore
-                                            for_in=for_in,  # type: ignore
-                                            # No parens necessary since they are
-                                            # already included by the call expr itself
-                                            lpar=[],
-                                            rpar=[],
+                                            elt=listcomp.elt,  # type: ignore
+                                            for_in=listcomp.for_in,  # type: ignore
+                                            lpar=[] if sole_argument else [cst.LeftParen()],
+                                            rpar=[] if sole_argument else [cst.RightParen()],
                                         )
-                                    )
+                                    ),
+                                    # keep the other arguments: the `start` of `sum`, `key` / `default` of `min` / `max`
+                                    *other_args,
                                 ],
                             )
 
-        return original_node
+        return updated_node
